@@ -213,6 +213,38 @@ func raceUfs(ctx *core.Ctx, n int, logging bool, rep int) core.Result {
 						bad()
 					}
 				}
+				if i%4 == 1 {
+					// a Topen the server refuses (the file vanished behind the fid), then the same fid opened again once
+					// the file is back; a Tcreate it refuses, then another name through the same fid: one request at a
+					// time on each fid
+					late := fmt.Sprintf("g%d/late%d", g, i)
+					host := filepath.Join(root, late)
+					_ = os.WriteFile(host, []byte("x"), 0o644)
+					if fid, err := clnt.FWalk(late); err == nil {
+						_ = os.Remove(host)
+						if clnt.Open(fid, go9p.OREAD) == nil {
+							bad()
+						}
+						_ = os.WriteFile(host, []byte("back"), 0o644)
+						if err := clnt.Open(fid, go9p.ORDWR); err != nil {
+							bad()
+						} else if _, err := clnt.Write(fid, []byte("again"), 0); err != nil {
+							bad()
+						}
+						_ = clnt.Clunk(fid)
+					}
+					if dfid, err := clnt.FWalk(fmt.Sprintf("g%d", g)); err == nil {
+						if clnt.Create(dfid, "..", 0o644, go9p.ORDWR, "") == nil {
+							bad()
+						}
+						if err := clnt.Create(dfid, fmt.Sprintf("made%d", i), 0o644, go9p.ORDWR, ""); err != nil {
+							bad()
+						} else if _, err := clnt.Write(dfid, []byte("made"), 0); err != nil {
+							bad()
+						}
+						_ = clnt.Clunk(dfid)
+					}
+				}
 			}
 		}(g)
 	}
